@@ -29,6 +29,7 @@ type modelReq struct {
 }
 
 type inputModel struct {
+	plain  []byte // AES template: bytes after decryption
 	name   string
 	typ    types.Type
 	scalar uint64
@@ -173,6 +174,20 @@ func extractModel(e *Encoder, o *Obligation) ([]*inputModel, bool, string) {
 			e.leafFieldReqs(im, v.T, pt.Elem(), "", &reqs, 0)
 		}
 	}
+	// AES decode template: the decrypted bytes are an uninterpreted function of the
+	// ciphertext; read them from the model so that the replay can encrypt them.
+	var aesPlain []byte
+	if isAESDecode(e) {
+		for _, g := range e.cbc {
+			if g.dec && g.out != nil {
+				aesPlain = make([]byte, replayBytes)
+				for k := 0; k < replayBytes; k++ {
+					k := k
+					reqs = append(reqs, modelReq{c.Select(g.out, c.BVLit(uint64(k), 64)), func(x uint64) { aesPlain[k] = byte(x) }})
+				}
+			}
+		}
+	}
 	var terms []*Term
 	for _, r := range reqs {
 		terms = append(terms, r.term)
@@ -181,6 +196,7 @@ func extractModel(e *Encoder, o *Obligation) ([]*inputModel, bool, string) {
 		as := append([]*Term{}, e.assumptions[:o.NAssume]...)
 		as = append(as, o.Guard, c.Not(o.Goal))
 		as = append(as, extra...)
+		as = append(as, e.boundedFoldFacts(as, replayBytes+1)...)
 		res := Solve("model_"+o.ID, c.Script(as, terms, ""), 20*time.Second, false)
 		return res, res.Status == "sat"
 	}
@@ -198,6 +214,13 @@ func extractModel(e *Encoder, o *Obligation) ([]*inputModel, bool, string) {
 	for i, r := range reqs {
 		if u, ok := sexpToUint(vals[i]); ok {
 			r.set(u)
+		}
+	}
+	if aesPlain != nil {
+		for _, im := range ims {
+			if im.name == "data" {
+				im.plain = aesPlain
+			}
 		}
 	}
 	for _, im := range ims {
@@ -422,6 +445,15 @@ func genReplayTest(w *World, e *Encoder, o *Obligation, ims []*inputModel) (stri
 		t := p.Type()
 		noteImports(t)
 		switch {
+		case isAESDecode(e) && isRecv:
+			fmt.Fprintf(&pre, "\t%s, _ := NewAES128CBC([16]byte{1, 2, 3, 4, 5, 6, 7, 8, 9, 10, 11, 12, 13, 14, 15, 16})\n", name)
+		case isAESDecode(e) && im.plain != nil && len(im.bytes) >= 32 && len(im.bytes)%16 == 0:
+			// build the ciphertext whose decryption under the known key is the model's plaintext
+			imports["crypto/cipher"] = "cipher"
+			n := len(im.bytes)
+			fmt.Fprintf(&pre, "\t%s := append(make([]byte, 0, %d), %s...)\n", name, n, bytesLit(im.bytes))
+			fmt.Fprintf(&pre, "\tplain_ := %s\n", bytesLit(im.plain[:n-16]))
+			fmt.Fprintf(&pre, "\tcipher.NewCBCEncrypter(in_a.cipher, %s[:16]).CryptBlocks(%s[16:], plain_)\n", name, name)
 		case im.fields != nil:
 			pt := t.Underlying().(*types.Pointer).Elem()
 			fmt.Fprintf(&pre, "\t%s := new(%s)\n", name, types.TypeString(pt, q))
@@ -568,4 +600,44 @@ func runReplay(w *World, e *Encoder, src string) (outcome, log string) {
 		log = log[:1500]
 	}
 	return "build-or-run-failure", log
+}
+
+// boundedFoldFacts pins every uninterpreted fold application down completely
+// for ranges up to n elements, so that a model found for replay is not an
+// artefact of the one-step unfolding used in proofs.
+func (e *Encoder) boundedFoldFacts(as []*Term, n int) []*Term {
+	c := e.c
+	seen := map[*Term]bool{}
+	var apps []*Term
+	var rec func(x *Term)
+	rec = func(x *Term) {
+		if seen[x] {
+			return
+		}
+		seen[x] = true
+		if x.Op == "app" && x.Name == "bsum8" && !x.hb {
+			apps = append(apps, x)
+		}
+		for _, a := range x.Args {
+			rec(a)
+		}
+	}
+	for _, a := range as {
+		rec(a)
+	}
+	var out []*Term
+	for _, t := range apps {
+		arr, from, to := t.Args[0], t.Args[1], t.Args[2]
+		d := c.BVBin("bvsub", to, from)
+		sum := c.BVLit(0, 8)
+		for k := 0; k <= n; k++ {
+			out = append(out, c.Implies(c.Eq(d, c.BVLit(uint64(k), 64)), c.Eq(t, sum)))
+			sum = c.BVBin("bvadd", sum, c.Select(arr, c.BVBin("bvadd", from, c.BVLit(uint64(k), 64))))
+		}
+	}
+	return out
+}
+
+func isAESDecode(e *Encoder) bool {
+	return e.top != nil && e.top.Name() == "DecodeFromBytes" && strings.Contains(e.top.String(), "AES128CBC")
 }
